@@ -541,7 +541,7 @@ expandfunc(struct macro *m)
 	}
 	if (i + 1 < m->nparam)
 		error(&t->loc, "not enough arguments for macro '%s'", m->name);
-	if (t->kind != TRPAREN)
+	if (t->kind != TRPAREN || (i == m->nparam && m->nparam > 0))
 		error(&t->loc, "too many arguments for macro '%s'", m->name);
 	for (i = 0, t = tok.val; i < m->nparam; ++i) {
 		arg[i].token = t;
